@@ -250,7 +250,8 @@ fn err_kind(e: &koto::Error, text: &str) -> &'static str {
 /// run a script: compile, run, display the value (and pull a few items if it is an iterator) or
 /// display the error.
 fn handle_run(src: &str) -> Value {
-    let io_case = src.starts_with(IO_MARK);
+    // (`#!io` on the first line, or on the second one after a `# apis:` line of a corpus file)
+    let io_case = src.lines().take(2).any(|l| l.trim_end() == IO_MARK);
     let v = handle_run_with(src, if io_case { new_koto_io() } else { new_koto() });
     if io_case {
         clear_scratch();
